@@ -98,7 +98,7 @@ def gen_entry(rnd, hostile):
         e["platform"] = list(p)
     if hostile and rnd.random() < 0.45:
         h = rnd.choice(HOSTILE)
-        f = rnd.choice(["command", "description", "niche", "keyword", "platform", "long", "longmb"])
+        f = rnd.choice(["command", "description", "niche", "keyword", "platform", "long", "longmb", "mbshort"])
         if f == "command":
             e["command"] += " " + h
         elif f == "description":
@@ -111,6 +111,9 @@ def gen_entry(rnd, hostile):
             e["platform"] = (e.get("platform") or ["linux"]) + [h.replace("\n", " ")]
         elif f == "long":
             e["command"] += " " + " ".join(rnd.choice(WORDS) for _ in range(8))
+        elif f == "mbshort":  # long in bytes, short in characters: byte- and rune-based truncation disagree
+            e["command"] = e["command"].split(" ")[0] + " " + "".join(rnd.choice("日本語検索結果表示") for _ in range(rnd.randint(16, 22)))
+            e["niche"] = "".join(rnd.choice("分類名前") for _ in range(rnd.randint(9, 14)))
         else:  # multi-byte characters around the table's cut offset (45 bytes)
             e["command"] = (e["command"] + " ")[:40].ljust(40, "x") + "日本語ééé " + rnd.choice(WORDS)
             e["niche"] = "café-" * 4 + "éééé"
@@ -536,8 +539,9 @@ def search_stream(ctx, wtf, n_sessions, opts_fact, colors):
             prev_args = (qclass, qargs)
             parts, fl, envx = gen_flags(rnd)
             joined = " ".join(qargs)
-            # (what validation will make of the words: invalid bytes become U+FFFD, white space is collapsed)
-            hk, hdata = gen_history(rnd, " ".join(joined.encode("utf-8", "surrogateescape").decode("utf-8", "replace").split()))
+            # (what validation will roughly make of the words: each invalid byte becomes '?', white space is collapsed; only a
+            #  hint for pre-filling the history with "the same query" -- the expected answers come from the real code)
+            hk, hdata = gen_history(rnd, " ".join(re.sub("[\udc80-\udcff]", "?", joined).split()))
             if hk == "absent":
                 if os.path.exists(hpath):
                     os.remove(hpath)
